@@ -486,13 +486,13 @@ type solverSpec struct {
 
 var solvers = []solverSpec{
 	{"z3-5.1.0", func(f string, t, seed int) []string {
-		return []string{"z3-new", fmt.Sprintf("-T:%d", t), fmt.Sprintf("sat.random_seed=%d", seed), fmt.Sprintf("smt.random_seed=%d", seed), f}
+		return []string{"z3-new", "model_validate=true", fmt.Sprintf("-T:%d", t), fmt.Sprintf("sat.random_seed=%d", seed), fmt.Sprintf("smt.random_seed=%d", seed), f}
 	}},
 	{"cvc5-1.0.3", func(f string, t, seed int) []string {
 		return []string{"cvc5", "--strings-exp", "--produce-models", fmt.Sprintf("--tlimit=%d", t*1000), fmt.Sprintf("--seed=%d", seed), f}
 	}},
 	{"z3-4.8.12", func(f string, t, seed int) []string {
-		return []string{"z3", fmt.Sprintf("-T:%d", t), fmt.Sprintf("sat.random_seed=%d", seed), fmt.Sprintf("smt.random_seed=%d", seed), f}
+		return []string{"z3", "model_validate=true", fmt.Sprintf("-T:%d", t), fmt.Sprintf("sat.random_seed=%d", seed), fmt.Sprintf("smt.random_seed=%d", seed), f}
 	}},
 }
 
@@ -520,6 +520,12 @@ func runOne(ctx context.Context, sp solverSpec, file string, timeoutS, seed int)
 	switch first {
 	case "unsat", "sat", "unknown":
 		st = first
+		if first == "sat" && strings.Contains(text, "invalid model") {
+			// z3's string solver occasionally answers sat with a model that does not satisfy the
+			// assertions (seen with str.++/uninterpreted functions); model validation is on and
+			// such an answer counts as no answer
+			st = "unknown"
+		}
 	case "timeout":
 		st = "timeout"
 	default:
